@@ -256,12 +256,25 @@ func ruleC11c(c *Ctx) {
 			pol  bool
 		}
 		for _, b := range fn.Blocks {
-			if !cyc[b] {
-				continue
-			}
 			iff, ok := b.Instrs[len(b.Instrs)-1].(*ssa.If)
 			if !ok {
 				continue
+			}
+			if !cyc[b] {
+				// outside a scan loop only a membership helper applied to the registered key counts
+				call, isCall := condRoot(iff.Cond).(*ssa.Call)
+				if !isCall || call.Call.StaticCallee() == nil || !p.inModule(call.Call.StaticCallee()) {
+					continue
+				}
+				takesKey := false
+				for _, a := range call.Call.Args {
+					if strip(a) == keyBase || exprShape(p, a, isSvc, 0) == keyShape {
+						takesKey = true
+					}
+				}
+				if !takesKey {
+					continue
+				}
 			}
 			// loop control (index < len) is not a membership condition
 			if bo, ok := iff.Cond.(*ssa.BinOp); ok && (bo.Op == token.LSS || bo.Op == token.GTR || bo.Op == token.LEQ || bo.Op == token.GEQ) {
@@ -296,6 +309,29 @@ func ruleC11c(c *Ctx) {
 					break
 				}
 				cond, pol = u.X, !pol
+			}
+			if call, isCall := cond.(*ssa.Call); isCall && pol && call.Call.StaticCallee() != nil && p.inModule(call.Call.StaticCallee()) {
+				// membership helper: `if !c.isPatternMapped(pattern) { register }`
+				h := call.Call.StaticCallee()
+				okHelper := false
+				for k, a := range call.Call.Args {
+					if k >= len(h.Params) || !(strip(a) == keyBase || exprShape(p, a, isSvc, 0) == keyShape) {
+						continue
+					}
+					hp := h.Params[k]
+					if eq := positiveUnderEquality(p, h, func(x, y ssa.Value) bool {
+						if strip(x) != ssa.Value(hp) {
+							return false
+						}
+						return exprShape(p, y, isEach, 0) == keyShape
+					}); eq != nil {
+						okHelper = true
+					}
+				}
+				c.check(okHelper, name, construct+": the guard compares the registered key", p.ipos(reg.Call),
+					"membership helper "+h.Name()+" is given the registered pattern and answers true only for an element whose pattern, computed the same way, equals it",
+					"the registration is suppressed by "+h.Name()+"(...), which does not answer by whole equality on the registered pattern computed the same way for registered services")
+				continue
 			}
 			bo, ok := cond.(*ssa.BinOp)
 			if !ok || !((bo.Op == token.EQL && pol) || (bo.Op == token.NEQ && !pol)) {
@@ -351,6 +387,7 @@ func ruleC11b(c *Ctx) {
 	facts := factsAt(add)
 	// os.Exit only under whole-root-path equality
 	var dupCond *ssa.BinOp
+	var dupCall *ssa.Call
 	nExit := 0
 	eachInstr(add, func(i ssa.Instruction) {
 		if !isCallTo(i, "os.Exit") {
@@ -368,6 +405,35 @@ func ruleC11b(c *Ctx) {
 				if a == b && strings.Contains(a, "§") && rootPathShape(a) {
 					ok = true
 					dupCond = bo
+				}
+			}
+		}
+		if !ok {
+			// the scan may live in a helper: `if dup := c.find(service); dup != nil { exit }`
+			for f := range facts[i.Block()] {
+				bo, isB := f.Cond.(*ssa.BinOp)
+				if !isB || bo.Op != token.NEQ || !f.Pol || !isNilConst(bo.Y) {
+					continue
+				}
+				call, isCall := strip(bo.X).(*ssa.Call)
+				if !isCall || call.Call.StaticCallee() == nil || !p.inModule(call.Call.StaticCallee()) {
+					continue
+				}
+				h := call.Call.StaticCallee()
+				for k, a := range call.Call.Args {
+					if a != ssa.Value(svc) || k >= len(h.Params) {
+						continue
+					}
+					hp := h.Params[k]
+					if eq := positiveUnderEquality(p, h, func(x, y ssa.Value) bool {
+						a := exprShape(p, x, func(v ssa.Value) bool { return v == ssa.Value(hp) }, 0)
+						b := exprShape(p, y, isEach, 0)
+						return a == b && strings.Contains(a, "§") && rootPathShape(a)
+					}); eq != nil {
+						ok = true
+						dupCond = eq
+						dupCall = call
+					}
 				}
 			}
 		}
@@ -402,7 +468,10 @@ func ruleC11b(c *Ctx) {
 	}
 	c.check(!canReach(appendStore, regCall), name, "the service is appended after the mux registration", p.ipos(appendStore),
 		"the append cannot precede the registration helper (whose membership scan must not yet see the new service)", "the new service is in the list before the registration helper scans it: the scan finds it and registers nothing")
-	if dupCond != nil {
+	if dupCall != nil {
+		c.check(!canReach(appendStore, dupCall) && !canReach(regCall, dupCall), name, "the duplicate scan comes first", p.ipos(dupCall),
+			"neither the registration nor the append can precede the scan", "the service is registered or appended before the duplicate scan ran")
+	} else if dupCond != nil {
 		c.check(!canReach(appendStore, dupCond) && !canReach(regCall, dupCond), name, "the duplicate scan comes first", p.ipos(dupCond),
 			"neither the registration nor the append can precede the scan", "the service is registered or appended before the duplicate scan ran")
 	}
@@ -659,4 +728,45 @@ func ruleC11f(c *Ctx) {
 				"the loop's only exit is the exhaustion of the list", early+": entries after the first match are not examined and stay registered")
 		}
 	}
+}
+
+// positiveUnderEquality: every positive return of h (a result that is not the constant false / nil)
+// lies in a block where an equality accepted by `accept(x, y)` (operands in either order) is known true,
+// and h has a negative return as well. Returns one such equality, or nil.
+func positiveUnderEquality(p *Program, h *ssa.Function, accept func(x, y ssa.Value) bool) *ssa.BinOp {
+	if h.Blocks == nil {
+		return nil
+	}
+	facts := factsAt(h)
+	var found *ssa.BinOp
+	pos, neg := 0, 0
+	for _, r := range returnsOf(h) {
+		if len(r.Results) == 0 {
+			return nil
+		}
+		v := r.Results[0]
+		if b, ok := constBool(v); (ok && !b) || isNilConst(v) {
+			neg++
+			continue
+		}
+		pos++
+		okRet := false
+		for f := range facts[r.Block()] {
+			bo, isB := f.Cond.(*ssa.BinOp)
+			if !isB || bo.Op != token.EQL || !f.Pol {
+				continue
+			}
+			if accept(bo.X, bo.Y) || accept(bo.Y, bo.X) {
+				okRet = true
+				found = bo
+			}
+		}
+		if !okRet {
+			return nil
+		}
+	}
+	if pos == 0 || neg == 0 {
+		return nil
+	}
+	return found
 }
